@@ -6,6 +6,7 @@ import Mathlib.Algebra.BigOperators.Group.List.Basic
 import Mathlib.Algebra.Order.Ring.Nat
 import Mathlib.Tactic.Ring
 import Mathlib.Tactic.Linarith
+import Mathlib.Analysis.SpecialFunctions.Pow.Real
 
 namespace Spec
 
@@ -60,6 +61,13 @@ theorem ipow_even {M : Type*} [CommMonoid M] (x : M) (k : ℕ) : x ^ (2 * k) = (
 
 theorem ipow_odd {M : Type*} [CommMonoid M] (x : M) (k : ℕ) : x ^ (2 * k + 1) = x * (x * x) ^ k := by
   rw [pow_succ, pow_mul, pow_two, mul_comm]
+
+/-- coupled Newton iteration on commuting tokens: (mat_h * mat_m_i)^p = mat_h^p * mat_m_i^p. -/
+theorem ipow_mul {M : Type*} [CommMonoid M] (x y : M) (p : ℕ) : (x * y) ^ p = x ^ p * y ^ p := mul_pow x y p
+
+/-- the seed of mat_h: (z^(1/p))^p = z for z >= 0. -/
+theorem root_pow (z : ℝ) (hz : 0 ≤ z) (p : ℕ) (hp : p ≠ 0) : (z ^ ((p : ℝ)⁻¹)) ^ p = z :=
+  Real.rpow_inv_natCast_pow hz hp
 
 /-- constant map: the ghost Sum of `n` copies of `v` (dict comprehension over a symbolic group). -/
 theorem sum_replicate_int (n : ℕ) (v : ℤ) : (List.replicate n v).sum = n * v := by
